@@ -12,8 +12,10 @@ parser/printer (C15's string-level theorems are used as proved) or marker parser
 same constraint comes back), `dep_roundtrip_registry_ne` (`!=V`: an equivalent constraint), and
 `dep_roundtrip_registry_marker` (markers of C13's full comparison-operator domain: the marker read back validates
 exactly as the original on every environment of the domain).
-The full statement is `dep_roundtrip_full_statement`.  NOT proved of it: (1) the URL and VCS kinds beyond the
-recogniser (`urlsplit` on the printed URL and the whole-URL inverse of the git grammar, `giturl_inverse_full_statement`);
+`dep_roundtrip_url` does the same for URL dependencies without sub-directory (http/https URL in `urlsplit` normal form).
+The full statement is `dep_roundtrip_full_statement`.  NOT proved of it: (1) URL dependencies with a sub-directory
+fragment, wheel URLs and the VCS kind beyond the recogniser (the whole-URL inverse of the git grammar,
+`giturl_inverse_full_statement`);
 (2) constraints the printer spells with a wildcard (`==X.*`, `!=X.*`) or as a disjunction; (3) dependencies that are
 members of an extra (`in_extras ≠ []`: the `extra == …` clause `to_pep_508` appends); (4) markers outside C13's domain
 (`in` / `not in`, `~=`, `platform_release`); (5) two side conditions on the printed text that are kept as hypotheses:
@@ -25,6 +27,7 @@ theorems.
 -/
 import PoetryVerif.Proofs.DepConstraint
 import PoetryVerif.Proofs.DepMarker
+import PoetryVerif.Proofs.DepUrl
 import PoetryVerif.Proofs.VRangeTextP
 
 set_option linter.unusedSimpArgs false
@@ -372,6 +375,67 @@ example : RegWF exDepM ∧ envPy.extras = some [] ∧ EnvPy envPy 3 8 1 ∧ M.Go
     unfold convertMarkersFor
     rw [h]
     simp [bind, Except.bind, pure, Except.pure, membersIfUnion, mPy, conjPairs, convKey, pvLeafOf, Leaf.name]
+
+/-! ## the round trip on URL dependencies (no sub-directory, no marker) -/
+
+/-- well-formedness of a URL dependency as `URLDependency(name, url, extras=…)` builds it -/
+structure UrlWF (d : Dep) (url : String) : Prop where
+  kind : d.kind = .url url none
+  name : d.spec.name = canonName d.spec.prettyName
+  ident : Ident d.spec.prettyName.toList
+  feats : normFeatures d.spec.features = d.spec.features
+  featIdent : ∀ f ∈ d.spec.features, Ident f.toList
+  inExtras : d.inExtras = []
+  stype : d.spec.sourceType = some "url"
+  surl : d.spec.sourceUrl = some url
+  ssub : d.spec.sourceSubdirectory = none
+  sref : d.spec.sourceReference = none
+  sres : d.spec.sourceResolvedReference = none
+
+/-- **round trip of a URL dependency** (http/https archive URL in `urlsplit`/`urlunsplit` normal form, not a wheel, no
+sub-directory, no marker): `to_pep_508` prints `name[extras] @ url`, `create_from_pep_508` reads it back (recogniser
+proved) and dispatches to `URLDependency(name, url)`: same normalised name, extras, kind and source -/
+theorem dep_roundtrip_url (d : Dep) (url : String) (u : SplitUrl) (h : UrlWF d url) (hu : UrlNF url u)
+    (hany : d.marker.isAny = true) (hpy : d.pythonVersions = "*")
+    (hnc : ∀ t, d.toPep508 = .ok t → NoComment t.toList) :
+    ∃ t d', d.toPep508 = .ok t ∧ createFromPep508 t = .ok d' ∧ d'.name = d.name ∧ d'.extras = d.extras ∧
+      d'.kind = Kind.textual d.kind ∧ sameSource d' d ∧ d'.marker = .any := by
+  have hbase : d.basePep508Name = .ok (d.spec.completePrettyName ++ " @ " ++ url ++ "") := by
+    simp [Dep.basePep508Name, h.kind, truthy, pure, Except.pure]
+  have htp : d.toPep508 = .ok (d.spec.completePrettyName ++ " @ " ++ url ++ "") := by
+    simp [Dep.toPep508, hbase, hany, hpy, h.inExtras, joinWith, bind, Except.bind, pure, Except.pure]
+  have hchars : (d.spec.completePrettyName ++ " @ " ++ url ++ "").toList =
+      d.spec.prettyName.toList ++ extrasText (d.spec.features.map String.toList) ++ urlText (some url.toList) ++ markerText none := by
+    simp [Spec.completePrettyName, String.toList_append, featureSuffix_chars, urlText, markerText]
+  have hr := createFromPep508_url _ _ _ url u hchars h.ident
+    (by intro e he; obtain ⟨f, hf, rfl⟩ := List.mem_map.mp he; exact h.featIdent f hf) hu (hnc _ htp)
+  rw [String.ofList_toList, map_ofList_toList] at hr
+  have hok : ∃ d', mkUrlDep d.spec.prettyName url none d.spec.features = .ok d' := by
+    have h1 : (u.scheme == "" || u.netloc == "") = false := by
+      have a1 : (u.scheme == "") = false := by rcases hu.http with e | e <;> rw [e] <;> decide
+      have a2 : (u.netloc == "") = false := by simpa using hu.netloc
+      simp [a1, a2]
+    have hng : (some "url" == some "git") = false := by decide
+    simp only [mkUrlDep, hu.split, h1, Spec.make, normalizeSourceUrl, mkDepStr, parseConstraint_star, hng, bind, Except.bind,
+      pure, Except.pure, Bool.and_false, Bool.false_eq_true, if_false]
+    exact ⟨_, rfl⟩
+  obtain ⟨d', hd'⟩ := hok
+  obtain ⟨a1, a2, a3, a4, a5, a6, a7, a8, a9⟩ := mkUrlDep_fields _ _ _ _ hd'
+  refine ⟨_, d', htp, by rw [hr]; exact hd', ?_, ?_, ?_, ?_, a9⟩
+  · show d'.spec.name = d.spec.name
+    rw [a1, h.name]
+  · show d'.spec.features = d.spec.features
+    rw [a2, h.feats]
+  · rw [a3, h.kind]; rfl
+  · constructor <;>
+      simp [Spec.isSameSourceAs, a4, a5, a6, a7, a8, h.stype, h.surl, h.ssub, h.sref, h.sres, truthy]
+
+/-- non-vacuity: `https://example.com/a/foo-1.0.tar.gz` is in normal form -/
+example : ∃ u, UrlNF "https://example.com/a/foo-1.0.tar.gz" u :=
+  ⟨_, { split := rfl, http := Or.inr (by decide), netloc := by decide, nofrag := by decide, unsplit := by decide +kernel,
+        nopct := by decide +kernel, notWheel := by decide +kernel, nosub := by decide +kernel,
+        uri := ⟨⟨'h', _, rfl, by decide⟩, by decide⟩, noUnc := by decide,
+        last := ⟨"https://example.com/a/foo-1.0.tar.g".toList, 'z', by decide, by decide⟩ }⟩
 
 /-! ## where the code itself breaks the round trip -/
 
